@@ -132,7 +132,7 @@ func init() {
 		},
 		Gen: func(r *Rng, tier string) *genProfile {
 			return &genProfile{MaxSteps: steps(tier, 40, 100), Default: 1, FollowUp: 65, Template: 30, Templates: loginTemplates,
-				Weights: loginWeights, BadSecret: 45, ThreshGaps: 12, SmallGaps: 20, Redir: 10, FaultRate: []int{0, 0, 80}[r.Intn(3)]}
+				Weights: loginWeights, BadSecret: 45, ThreshGaps: 12, SmallGaps: 20, Redir: 10, FaultRate: []int{0, 0, 80}[r.Intn(3)], WrongJSONTypes: true}
 		},
 		Oracle: newC01Oracle,
 		Nontrivial: func(s *Stats) bool {
